@@ -1,7 +1,6 @@
 #!/bin/sh
-# Build the framework offline (both builds of the hooked crate + harness).
+# Build the framework offline (hooked kanal + shim + harness).
 set -e
 cd "$(dirname "$0")"
 export CARGO_NET_OFFLINE=true
 CARGO_TARGET_DIR=/verif/target/default cargo build --release --offline -p kmc
-CARGO_TARGET_DIR=/verif/target/seam cargo build --release --offline -p kmc --features seam
